@@ -403,7 +403,7 @@ def patch_world_internal_names(world):
 # guided random schedules
 
 PROFILES = ["set", "allocate", "input", "set-mismatch", "lonely", "welcome-error", "crowded", "fail-initial",
-            "late-peer", "drops", "welcome-error-later", "third", "third-alone"]
+            "late-peer", "drops", "welcome-error-later", "third", "third-alone", "server-error"]
 
 
 def summarize(W, ob):
@@ -431,6 +431,7 @@ def guided(seed, n_ops, profile, welcome_error=None, finish_run=False):
         ops = []
         code = "%d-%s" % (rng.choice([4, 17, 123]), rng.choice(WORDS))
         st = dict(code_started=False, closed=False, peer_started=[False] * (npeers + 1), sent=0, helper_stage=0)
+        st["t_err"] = rng.randrange(0, max(2, n_ops // 2))
         st["drop_budget"] = rng.choice([4, 8, 16]) if profile == "drops" else rng.choice([0, 1, 2, 4, 6])
         st["t_close"] = rng.randrange(0, 8) if rng.random() < 0.15 else rng.randrange(int(n_ops * (0.6 if profile == "late-peer" else 0.3)), n_ops + 1)
         mode = {"allocate": "allocate", "input": "input"}.get(profile, "set")
@@ -452,15 +453,18 @@ def guided(seed, n_ops, profile, welcome_error=None, finish_run=False):
             emit(["fail_initial", 0])
         if profile == "crowded":
             # two other parties take the nameplate first
+            # (they claim and open, but never read what the server sends them: neither sees the other's PAKE, so
+            # neither releases the nameplate, and the observed client is the third side)
             for p in (1, 2):
                 emit(["open", p])
                 emit(["api", p, "set_code", code])
-                W.settle()
-                ops.append(["settle"])
+                for _k in range(8):
+                    if W.clients[p].conn.c2s:
+                        emit(["c2s", p])
         # in most walks the peers are quick: whatever is queued for or by them is handled before the next step of
         # client 0, so that the walk's randomness goes into client 0's own schedule (drops, reconnects with a full
         # mailbox, sends and receives in S2_happy) instead of into waiting for the peer
-        eager = rng.random() < 0.6
+        eager = rng.random() < 0.6 and profile != "crowded"
         for _ in range(n_ops):
             c0 = W.clients[0]
             if eager:
@@ -534,6 +538,10 @@ def guided(seed, n_ops, profile, welcome_error=None, finish_run=False):
                     else:
                         body3 = bytes(rng.randrange(256) for _ in range(rng.choice([0, 24, 40, 60])))
                     choices += [["inject", 0, "7h1rd51de", ph3, body3.hex()]] * ((6 if seen_pake else 3) if profile in ("third", "third-alone") else 1)
+                # the server refuses something: an `error` frame (any time after its welcome)
+                if profile == "server-error" and not st.get("errored") and len(ops) > st["t_err"] and "welcome" in [n for n, _ in c0.events]:
+                    choices += [["inject_frame", 0, {"type": "error", "error": "refused", "orig": {"type": "claim"}},
+                                 rng.random() < 0.5]] * 6
             if c0.svc.stopping is not None and not c0.svc.stopping.called:
                 choices += [["svc_stopped", 0]] * 4
             if c0.eq._calls:
@@ -584,7 +592,7 @@ def guided(seed, n_ops, profile, welcome_error=None, finish_run=False):
                 if cp.conn is not None:
                     if cp.conn.c2s:
                         choices += [["c2s", p]] * 8
-                    if cp.conn.s2c:
+                    if cp.conn.s2c and profile != "crowded":
                         choices += [["s2c", p]] * 8
                 if cp.eq._calls:
                     choices += [["turn", p]] * 2
@@ -613,6 +621,8 @@ def guided(seed, n_ops, profile, welcome_error=None, finish_run=False):
                 continue
             op = rng.choice(choices)
             r = emit(op)
+            if op[0] == "inject_frame":
+                st["errored"] = True
             if op[0] == "drop" and op[1] == 0:
                 st["drops"] = st.get("drops", 0) + 1
             if op[0] == "api":
